@@ -84,6 +84,11 @@ enum Spec {
     Pump { cap: u64, plimit: u64, content: Segs, sizes: Vec<u64> },
     Capture { pmax: u64, amax: u64, content: Segs, sizes: Vec<u64> },
     Lifecycle { codes: Vec<u64> },
+    /// a real background task through the router; variant: 0 normal, 1 unsupported tool, 2 invalid args,
+    /// 3 post-spawn failure (absolute cwd)
+    Task { variant: u64, out: Segs, err: Segs, cap: u64, plimit: u64, exit: u64, cancel_after_ms: Option<u64>, page: u64 },
+    /// a real foreground `bash` tool run
+    Bash { out: Segs, err: Segs, pmax: u64, amax: u64, exit: u64 },
 }
 
 fn coq_segs(s: &Segs) -> String {
@@ -108,6 +113,7 @@ fn coq_spec(s: &Spec) -> String {
         Spec::Pump { cap, plimit, content, sizes } => format!("CPump {} {} {} {}", cap, plimit, coq_segs(content), coq_list_n(sizes)),
         Spec::Capture { pmax, amax, content, sizes } => format!("CCapture {} {} {} {}", pmax, amax, coq_segs(content), coq_list_n(sizes)),
         Spec::Lifecycle { codes } => format!("CLifecycle {}", coq_list(codes, |c| coq_lev(*c))),
+        Spec::Task { .. } | Spec::Bash { .. } => unreachable!("real runs are compared through derived specs"),
     }
 }
 fn coq_case(s: &Spec, expect: &[u64]) -> String {
@@ -125,7 +131,31 @@ fn spec_json(s: &Spec) -> Value {
         Spec::Pump { cap, plimit, content, sizes } => json!({"kind": "pump", "cap": cap, "preview_limit": plimit, "content": segs_json(content), "sizes": sizes}),
         Spec::Capture { pmax, amax, content, sizes } => json!({"kind": "capture_stream", "preview_limit": pmax, "cap": amax, "content": segs_json(content), "sizes": sizes}),
         Spec::Lifecycle { codes } => json!({"kind": "lifecycle", "codes": codes}),
+        Spec::Task { variant, out, err, cap, plimit, exit, cancel_after_ms, page } => json!({"kind": "task", "variant": variant, "stdout": segs_json(out), "stderr": segs_json(err), "cap": cap, "preview_limit": plimit, "exit": exit, "cancel_after_ms": cancel_after_ms, "page": page}),
+        Spec::Bash { out, err, pmax, amax, exit } => json!({"kind": "bash", "stdout": segs_json(out), "stderr": segs_json(err), "preview_limit": pmax, "cap": amax, "exit": exit}),
     }
+}
+fn segs_from(v: &Value) -> Segs {
+    v.as_array().map(|a| a.iter().map(|x| (hex::decode(x["pattern_hex"].as_str().unwrap_or("")).unwrap_or_default(), x["reps"].as_u64().unwrap_or(0))).collect()).unwrap_or_default()
+}
+fn u64s(v: &Value) -> Vec<u64> {
+    v.as_array().map(|a| a.iter().filter_map(|x| x.as_u64()).collect()).unwrap_or_default()
+}
+/// inverse of `spec_json` (replay files, corpus)
+fn spec_from_json(v: &Value) -> Option<Spec> {
+    let g = |k: &str| v.get(k).and_then(|x| x.as_u64()).unwrap_or(0);
+    Some(match v.get("kind")?.as_str()? {
+        "log_writer" => Spec::LogWriter { cap: g("cap"), content: segs_from(&v["content"]), sizes: u64s(&v["sizes"]) },
+        "pages" => Spec::Pages { content: segs_from(&v["content"]), reqs: v["reqs"].as_array()?.iter().map(|r| (r[0].as_u64().unwrap_or(0), r[1].as_u64().unwrap_or(0))).collect() },
+        "walk" => Spec::Walk { content: segs_from(&v["content"]), maxb: g("max_bytes"), fuel: g("fuel") },
+        "truncate_utf8" => Spec::Trunc { bs: hex::decode(v["bytes_hex"].as_str()?).ok()?, maxb: g("max_bytes") },
+        "pump" => Spec::Pump { cap: g("cap"), plimit: g("preview_limit"), content: segs_from(&v["content"]), sizes: u64s(&v["sizes"]) },
+        "capture_stream" => Spec::Capture { pmax: g("preview_limit"), amax: g("cap"), content: segs_from(&v["content"]), sizes: u64s(&v["sizes"]) },
+        "lifecycle" => Spec::Lifecycle { codes: u64s(&v["codes"]) },
+        "task" => Spec::Task { variant: g("variant"), out: segs_from(&v["stdout"]), err: segs_from(&v["stderr"]), cap: g("cap"), plimit: g("preview_limit"), exit: g("exit"), cancel_after_ms: v.get("cancel_after_ms").and_then(|x| x.as_u64()), page: g("page") },
+        "bash" => Spec::Bash { out: segs_from(&v["stdout"]), err: segs_from(&v["stderr"]), pmax: g("preview_limit"), amax: g("cap"), exit: g("exit") },
+        _ => return None,
+    })
 }
 
 // ------------------------------------------------------------------ scripted reader
@@ -541,7 +571,21 @@ fn capture_obs(o: &mut Obs, ws: &Path, lines: &[String], j: &Value, bytes: &[u8]
             o.fail("artifact_unexpected", "artifact although everything fits the preview".into());
         }
     }
-    if u(j, "bytes_total") != total || b(j, "truncated") != (total > pmax) || u(j, "bytes_preview") != total.min(pmax) {
+    // bytes_preview: everything when it fits; else the limit, minus an incomplete character at the cut
+    let fit = total.min(pmax);
+    let bp = u(j, "bytes_preview");
+    let bp_ok = if total <= pmax {
+        bp == total
+    } else if std::str::from_utf8(bytes).is_ok() {
+        let mut e = fit as usize;
+        while !is_char_boundary(bytes, e) {
+            e -= 1;
+        }
+        bp == e as u64 || bp == fit // (== fit with U+FFFD is reported as S19 below)
+    } else {
+        bp <= fit && bp + 3 >= fit
+    };
+    if u(j, "bytes_total") != total || b(j, "truncated") != (total > pmax) || !bp_ok {
         o.fail("summary_wrong", format!("capture summary {j} for {total} bytes written, preview limit {pmax}"));
     }
     // preview = the first min(limit,total) bytes, as text lines
@@ -591,8 +635,252 @@ async fn run_spec(s: &Spec) -> Obs {
         Spec::Trunc { bs, maxb } => run_trunc(bs, *maxb),
         Spec::Pump { cap, plimit, content, sizes } => run_pump(*cap, *plimit, content, sizes).await,
         Spec::Capture { pmax, amax, content, sizes } => run_capture(*pmax, *amax, content, sizes).await,
-        Spec::Lifecycle { .. } => Obs::default(),
+        Spec::Lifecycle { .. } | Spec::Task { .. } | Spec::Bash { .. } => Obs::default(),
     }
+}
+
+// ------------------------------------------------------------------ real tasks through the router
+struct World {
+    _ws: Scratch,
+    ws: PathBuf,
+    data: PathBuf,
+    app: axum::Router,
+    n: u64,
+}
+impl World {
+    fn new() -> World {
+        let ws = Scratch::new("c17rt");
+        let root = ws.path().join("ws");
+        let data = ws.path().join("data");
+        std::fs::create_dir_all(&root).unwrap();
+        std::fs::create_dir_all(&data).unwrap();
+        let app = ripd::verif::build_app(data.clone(), root.clone(), None);
+        World { ws: root, data, app, n: 0, _ws: ws }
+    }
+}
+fn req(method: &str, uri: &str, body: Option<Value>) -> axum::http::Request<axum::body::Body> {
+    let b = axum::http::Request::builder().method(method).uri(uri);
+    match body {
+        Some(v) => b.header("content-type", "application/json").body(axum::body::Body::from(v.to_string())).unwrap(),
+        None => b.body(axum::body::Body::empty()).unwrap(),
+    }
+}
+async fn call_json(app: &axum::Router, r: axum::http::Request<axum::body::Body>) -> (u16, Value) {
+    use http_body_util::BodyExt;
+    use tower::ServiceExt;
+    let resp = app.clone().oneshot(r).await.expect("infallible");
+    let st = resp.status().as_u16();
+    let bytes = resp.into_body().collect().await.map(|b| b.to_bytes()).unwrap_or_default();
+    (st, serde_json::from_slice(&bytes).unwrap_or(Value::Null))
+}
+fn task_frames(data: &Path, id: &str) -> Vec<Value> {
+    let Ok(text) = std::fs::read_to_string(data.join("events.jsonl")) else { return vec![] };
+    text.lines().filter_map(|l| serde_json::from_str::<Value>(l).ok()).filter(|v| v.get("session_id").and_then(|x| x.as_str()) == Some(id)).collect()
+}
+fn frame_code(e: &Value) -> u64 {
+    let st = |e: &Value| match e.get("status").and_then(|x| x.as_str()).unwrap_or("") {
+        "running" => 1,
+        "exited" => 22,
+        "cancelled" => 23,
+        "failed" => 24,
+        _ => 99,
+    };
+    match e.get("type").and_then(|x| x.as_str()).unwrap_or("") {
+        "tool_task_spawned" => 0,
+        "tool_task_status" => st(e),
+        "tool_task_output_delta" => if e.get("stream").and_then(|x| x.as_str()) == Some("stderr") { 11 } else { 10 },
+        "tool_task_cancel_requested" => 2,
+        "tool_task_cancelled" => 3,
+        _ => 98,
+    }
+}
+/// the property's lifecycle clause, checked directly on the kind sequence (independent of the model)
+fn lifecycle_oracle(o: &mut Obs, codes: &[u64], spawnless_expected: bool) {
+    let term = |c: u64| (22..=24).contains(&c);
+    if codes.iter().any(|c| *c >= 98) {
+        o.fail("task_stream_foreign_frame", format!("unexpected frame kind in a task stream: {codes:?}"));
+    }
+    let nterm = codes.iter().filter(|c| term(**c)).count();
+    if nterm != 1 {
+        o.fail("terminal_status_not_exactly_once", format!("{nterm} terminal status frames: {codes:?}"));
+    } else if !term(*codes.last().unwrap()) {
+        o.fail("frame_after_terminal_status", format!("frames follow the terminal status: {codes:?}"));
+    }
+    if spawnless_expected {
+        if codes != [24] {
+            o.fail("pre_spawn_failure_not_single_failed_frame", format!("pre-spawn failure stream is {codes:?}"));
+        }
+        return;
+    }
+    if codes.first() != Some(&0) || codes.iter().filter(|c| **c == 0).count() != 1 {
+        o.fail("stream_does_not_open_with_spawn_frame", format!("{codes:?}"));
+    }
+    if codes.iter().filter(|c| **c == 1).count() > 1 {
+        o.fail("running_reported_twice", format!("{codes:?}"));
+    }
+    if let Some(i) = codes.iter().position(|c| *c == 10 || *c == 11) {
+        if !codes[..i].contains(&1) {
+            o.fail("output_before_running", format!("{codes:?}"));
+        }
+    }
+    let creq = codes.iter().position(|c| *c == 2);
+    let cdone = codes.iter().position(|c| *c == 3);
+    match (creq, cdone) {
+        (None, Some(_)) => o.fail("cancelled_without_cancel_request", format!("{codes:?}")),
+        (Some(a), Some(b)) if a > b => o.fail("cancelled_before_cancel_request", format!("{codes:?}")),
+        _ => {}
+    }
+    if codes.last() == Some(&23) && cdone.is_none() {
+        o.fail("cancelled_status_without_cancelled_frame", format!("{codes:?}"));
+    }
+    if cdone.is_some() && codes.last() == Some(&22) {
+        o.fail("exited_after_cancelled", format!("{codes:?}"));
+    }
+}
+
+#[allow(clippy::too_many_arguments)]
+async fn run_task(w: &mut World, variant: u64, out: &Segs, err: &Segs, cap: u64, plimit: u64, exit: u64, cancel_after_ms: Option<u64>, page: u64) -> (Obs, Vec<u64>) {
+    let mut o = Obs::default();
+    w.n += 1;
+    let (outb, errb) = (expand(out), expand(err));
+    let (fo, fe) = (format!("o{}.bin", w.n), format!("e{}.bin", w.n));
+    std::fs::write(w.ws.join(&fo), &outb).unwrap();
+    std::fs::write(w.ws.join(&fe), &errb).unwrap();
+    let tail = if cancel_after_ms.is_some() { "; sleep 3" } else { "" };
+    let command = format!("cat {fo}; cat {fe} >&2{tail}; exit {exit}");
+    let body = match variant {
+        1 => json!({"tool": "python", "args": {"command": command}}),
+        2 => json!({"tool": "bash", "args": {"command": 17}}),
+        3 => json!({"tool": "bash", "args": {"command": command, "cwd": "/", "artifact_max_bytes": cap, "max_bytes": plimit}}),
+        _ => json!({"tool": "bash", "args": {"command": command, "artifact_max_bytes": cap, "max_bytes": plimit}}),
+    };
+    let (st, created) = call_json(&w.app, req("POST", "/tasks", Some(body))).await;
+    let id = created.get("task_id").and_then(|x| x.as_str()).unwrap_or("").to_string();
+    if id.is_empty() {
+        o.fail("task_spawn_rejected", format!("POST /tasks -> {st} {created}"));
+        return (o, vec![]);
+    }
+    if let Some(ms) = cancel_after_ms {
+        if ms > 0 {
+            tokio::time::sleep(Duration::from_micros(ms * 700)).await;
+        }
+        let _ = call_json(&w.app, req("POST", &format!("/tasks/{id}/cancel"), Some(json!({"reason": "c17"})))).await;
+    }
+    // wait (generously) for the terminal status frame in the event log, then let stragglers land
+    let mut frames = vec![];
+    for _ in 0..24_000 {
+        frames = task_frames(&w.data, &id);
+        if frames.iter().any(|e| (22..=24).contains(&frame_code(e))) {
+            break;
+        }
+        tokio::time::sleep(Duration::from_millis(5)).await;
+    }
+    tokio::time::sleep(Duration::from_millis(60)).await;
+    frames = task_frames(&w.data, &id);
+    let codes: Vec<u64> = frames.iter().map(frame_code).collect();
+    if !codes.iter().any(|c| (22..=24).contains(c)) {
+        o.fail("task_never_terminates", format!("no terminal status after 120 s: {codes:?}"));
+        return (o, codes);
+    }
+    for (i, e) in frames.iter().enumerate() {
+        if u(e, "seq") != i as u64 {
+            o.fail("seq_not_consecutive", format!("frame {i} has seq {}", u(e, "seq")));
+        }
+    }
+    lifecycle_oracle(&mut o, &codes, variant == 1 || variant == 2);
+    if variant != 0 {
+        if codes.last() != Some(&24) {
+            o.fail("failure_not_reported_failed", format!("{codes:?}"));
+        }
+        return (o, codes);
+    }
+    // streams
+    let spawn = &frames[0];
+    let last = frames.last().unwrap();
+    let cancelled = codes.contains(&2);
+    if !cancelled && (codes.last() != Some(&22) || last.get("exit_code").and_then(|x| x.as_u64()) != Some(exit)) {
+        o.fail("exit_status_wrong", format!("expected exited/{exit}: {}", last));
+    }
+    for (name, content) in [("stdout", &outb), ("stderr", &errb)] {
+        let lid = spawn["artifacts"]["logs"][name]["id"].as_str().unwrap_or("").to_string();
+        let sum = &last["artifacts"]["logs"][name];
+        let blob = read_blob_settled(&mut o, &blob_path(&w.ws, &lid), u(sum, "bytes_stored"));
+        if cancelled {
+            if blob.len() as u64 > cap || !content.starts_with(&blob) {
+                o.fail("stored_not_prefix", format!("{name} log of a cancelled task ({} bytes) is not a prefix of the output within cap {cap}", blob.len()));
+            }
+        } else {
+            if blob != prefix(content, cap) {
+                o.fail("stored_not_prefix", format!("{name} log holds {} bytes that are not the first min(cap={cap}, {}) bytes written", blob.len(), content.len()));
+            }
+            if u(sum, "bytes_total") != content.len() as u64 || b(sum, "truncated") != (content.len() as u64 > cap) {
+                o.fail("summary_wrong", format!("{name} summary {sum} for {} bytes written, cap {cap}", content.len()));
+            }
+        }
+        if u(sum, "bytes_stored") != blob.len() as u64 {
+            o.fail("summary_wrong", format!("{name} summary {sum}, {} bytes in the log", blob.len()));
+        }
+        let fr = delta_frames(&frames, name);
+        let upto = u(sum, "bytes_total").min(content.len() as u64) as usize;
+        frames_oracle(&mut o, &fr, blob.len() as u64, plimit, &content[..upto], None);
+        // page walk over GET /tasks/{id}/output
+        if page > 0 {
+            let (mut off, mut cat, mut done) = (0u64, vec![], false);
+            for _ in 0..(blob.len() as u64 / page.saturating_sub(3).max(1) + 8) {
+                let (st, p) = call_json(&w.app, req("GET", &format!("/tasks/{id}/output?stream={name}&offset_bytes={off}&max_bytes={page}"), None)).await;
+                if st != 200 {
+                    o.fail("page_error", format!("GET output -> {st}"));
+                    break;
+                }
+                cat.extend_from_slice(p["content"].as_str().unwrap_or("").as_bytes());
+                off += u(&p, "bytes");
+                if u(&p, "total_bytes") != blob.len() as u64 {
+                    o.fail("page_total_wrong", format!("total_bytes {} for a {}-byte log", u(&p, "total_bytes"), blob.len()));
+                }
+                if !b(&p, "truncated") || u(&p, "bytes") == 0 {
+                    done = !b(&p, "truncated");
+                    break;
+                }
+            }
+            if std::str::from_utf8(&blob).is_ok() && page >= 4 {
+                if !done {
+                    o.fail("page_walk_stalls", format!("page walk over the {name} log with max_bytes {page} does not finish"));
+                } else if cat != blob {
+                    o.fail("pages_split_character_lossy", format!("pages of max_bytes {page} over the {name} log concatenate to {} bytes != the {} stored bytes", cat.len(), blob.len()));
+                }
+            }
+        }
+    }
+    (o, codes)
+}
+
+async fn run_bash(w: &mut World, out: &Segs, err: &Segs, pmax: u64, amax: u64, exit: u64) -> (Obs, Vec<(Spec, Vec<u64>)>) {
+    let mut o = Obs::default();
+    w.n += 1;
+    let (outb, errb) = (expand(out), expand(err));
+    let (fo, fe) = (format!("o{}.bin", w.n), format!("e{}.bin", w.n));
+    std::fs::write(w.ws.join(&fo), &outb).unwrap();
+    std::fs::write(w.ws.join(&fe), &errb).unwrap();
+    let reg = Arc::new(rip_tools::ToolRegistry::default());
+    rip_tools::register_builtin_tools(&reg, tool_cfg(&w.ws, pmax, amax));
+    let h = reg.get("bash").unwrap();
+    let res = (h)(rip_tools::ToolInvocation { name: "bash".into(), args: json!({"command": format!("cat {fo}; cat {fe} >&2; exit {exit}")}), timeout_ms: None }).await;
+    if res.exit_code as u64 != exit {
+        o.fail("exit_status_wrong", format!("bash exit code {} for `exit {exit}`", res.exit_code));
+    }
+    let arts = res.artifacts.clone().unwrap_or(Value::Null);
+    let mut derived = vec![];
+    for (name, lines, content, segs) in [("stdout", &res.stdout, &outb, out), ("stderr", &res.stderr, &errb, err)] {
+        let mut oo = Obs::default();
+        capture_obs(&mut oo, &w.ws, lines, &arts[name], content, pmax, amax);
+        // the capture is the same for every chunking (c17_stored_is_prefix_capture): compare the real
+        // run with the model fed the whole output as one chunk
+        derived.push((Spec::Capture { pmax, amax, content: segs.clone(), sizes: vec![] }, oo.enc.clone()));
+        for (what, class) in oo.fails {
+            o.fail(&class, format!("{name}: {what}"));
+        }
+    }
+    (o, derived)
 }
 
 // ------------------------------------------------------------------ generators
@@ -736,6 +1024,7 @@ fn nontrivial(s: &Spec) -> bool {
         Spec::Trunc { bs, maxb } => (bs.len() as u64) > *maxb,
         Spec::Pump { content, sizes, .. } | Spec::Capture { content, sizes, .. } => sizes.len() > 1 && !expand(content).is_empty(),
         Spec::Lifecycle { codes } => codes.len() > 2,
+        Spec::Task { out, err, .. } | Spec::Bash { out, err, .. } => !expand(out).is_empty() || !expand(err).is_empty(),
     }
 }
 fn kind_name(s: &Spec) -> &'static str {
@@ -747,37 +1036,118 @@ fn kind_name(s: &Spec) -> &'static str {
         Spec::Pump { .. } => "pump",
         Spec::Capture { .. } => "capture_stream",
         Spec::Lifecycle { .. } => "lifecycle",
+        Spec::Task { .. } => "task",
+        Spec::Bash { .. } => "bash",
+    }
+}
+
+fn gen_real(r: &mut Rng) -> Spec {
+    let limits: [u64; 10] = [0, 1, 3, 4, 5, 16, 64, 100, 8191, 8192];
+    let caps: [u64; 9] = [0, 1, 5, 33, 100, 8192, 8193, 20000, 1 << 20];
+    if r.chance(3, 5) {
+        let plimit = *r.pick(&limits[..]);
+        let cap = *r.pick(&caps[..]);
+        let variant = match r.below(20) {
+            0 => 1,
+            1 => 2,
+            2 => 3,
+            _ => 0,
+        };
+        let out = gen_content(r, &[plimit.min(200), cap.min(200), 20], true);
+        let big = r.chance(1, 4);
+        let err = if r.chance(1, 2) { gen_content(r, &[plimit.min(200), 7, 0], big) } else { vec![] };
+        let cancel_after_ms = if variant == 0 && r.chance(1, 4) { Some(r.below(40)) } else { None };
+        Spec::Task { variant, out, err, cap, plimit, exit: *r.pick(&[0u64, 0, 1, 3, 7]), cancel_after_ms, page: *r.pick(&[0u64, 4, 5, 7, 64, 4096, 8192]) }
+    } else {
+        let pmax = *r.pick(&limits[..]);
+        let amax = *r.pick(&caps[..]);
+        let out = gen_content(r, &[pmax.min(200), amax.min(200), 20], true);
+        let big = r.chance(1, 4);
+        let err = if r.chance(1, 2) { gen_content(r, &[pmax.min(200), 7, 0], big) } else { vec![] };
+        Spec::Bash { out, err, pmax, amax, exit: *r.pick(&[0u64, 0, 2]) }
     }
 }
 
 fn main() {
     let a = parse_args();
     let mut res = RunResult::new("C17", &a);
-    res.rule = "direct-drive cases = (caps, preview limits, content, chunking) from a seeded generator: content valid multi-byte text / biased binary / large repeated patterns around 8192; chunk sizes 1, small, 8191/8192, whole; caps and limits incl. 0; random (offset,max_bytes) pages and page walks; non-trivial = more than one chunk or multi-byte content or an actual truncation; distinct by hash of the case".into();
-    let n = if a.thorough() { 6000 } else { 600 };
+    res.rule = "direct-drive cases = (caps, preview limits, content, chunking) from a seeded generator: content valid multi-byte text / biased binary / large repeated patterns around 8192; chunk sizes 1, small, 8191/8192, whole; caps and limits incl. 0; random (offset,max_bytes) pages and page walks; real runs = background tasks through the router (POST /tasks, cancel at random delays, pre-/post-spawn failures, GET output page walks) and foreground bash tool runs with generated stdout/stderr volumes; non-trivial = more than one chunk or multi-byte content or an actual truncation or a real run with output; distinct by hash of the case".into();
+    let (n, nreal) = if a.thorough() { (6000, 700) } else { (600, 70) };
     let rt = tokio::runtime::Builder::new_multi_thread().worker_threads(4).enable_all().build().unwrap();
     let mut r = Rng::new(a.seed);
     let mut w = CaseWriter::new(&a.out, "Model.Capture", "check_case", "model_obs", 60);
     let mut distinct = Distinct::default();
-    let mut all = corpus();
-    for _ in 0..n {
-        all.push(gen_spec(&mut r));
+    let mut all: Vec<Spec> = vec![];
+    if let Some(path) = &a.replay {
+        // a replay file written by ./check ({"case": spec, ..}) or a corpus file (the spec itself)
+        let v: Value = serde_json::from_str(&std::fs::read_to_string(path).expect("replay file")).expect("replay json");
+        let c = v.get("case").cloned().unwrap_or(v);
+        all.push(spec_from_json(&c).expect("replayable spec"));
+    } else {
+        all = corpus();
+        if let Ok(rd) = std::fs::read_dir(concat!(env!("CARGO_MANIFEST_DIR"), "/../corpus/C17")) {
+            let mut files: Vec<_> = rd.filter_map(|e| e.ok()).map(|e| e.path()).collect();
+            files.sort();
+            for f in files {
+                if let Some(sp) = std::fs::read_to_string(&f).ok().and_then(|t| serde_json::from_str::<Value>(&t).ok()).and_then(|v| spec_from_json(&v)) {
+                    all.push(sp);
+                }
+            }
+        }
+        for _ in 0..n {
+            all.push(gen_spec(&mut r));
+        }
+        for _ in 0..nreal {
+            all.push(gen_real(&mut r));
+        }
     }
+    let mut world: Option<World> = None;
     for (i, s) in all.iter().enumerate() {
         let s2 = s.clone();
-        let got = std::panic::catch_unwind(std::panic::AssertUnwindSafe(|| rt.block_on(run_spec(&s2))));
         res.evaluations += 1;
         res.oracle_checks += 1;
         res.bump(&format!("kind={}", kind_name(s)));
+        // (observations, cases for the model)
+        let got: Result<(Obs, Vec<(Spec, Vec<u64>)>), _> = match s {
+            Spec::Task { variant, out, err, cap, plimit, exit, cancel_after_ms, page } => {
+                if world.is_none() {
+                    let _g = rt.enter();
+                    world = Some(World::new());
+                }
+                let wd = world.as_mut().unwrap();
+                std::panic::catch_unwind(std::panic::AssertUnwindSafe(|| {
+                    let (o, codes) = rt.block_on(run_task(wd, *variant, out, err, *cap, *plimit, *exit, *cancel_after_ms, *page));
+                    res_codes_case(o, codes, *variant)
+                }))
+            }
+            Spec::Bash { out, err, pmax, amax, exit } => {
+                if world.is_none() {
+                    let _g = rt.enter();
+                    world = Some(World::new());
+                }
+                let wd = world.as_mut().unwrap();
+                std::panic::catch_unwind(std::panic::AssertUnwindSafe(|| rt.block_on(run_bash(wd, out, err, *pmax, *amax, *exit))))
+            }
+            _ => std::panic::catch_unwind(std::panic::AssertUnwindSafe(|| {
+                let o = rt.block_on(run_spec(&s2));
+                let enc = o.enc.clone();
+                (o, vec![(s2.clone(), enc)])
+            })),
+        };
         match got {
             Err(_) => {
                 res.impl_panics += 1;
                 res.oracle_violations.push(OracleViolation { case_id: i as i64, what: format!("{} panicked", kind_name(s)), class: "panic".into(), replay: spec_json(s) });
             }
-            Ok(o) => {
-                let id = if !a.oracle_only() { w.push(coq_case(s, &o.enc)) as i64 } else { i as i64 };
-                if !a.oracle_only() && res.case_index.len() < 3000 {
-                    res.case_index.insert(id.to_string(), spec_json(s));
+            Ok((o, cases)) => {
+                let mut id = i as i64;
+                if !a.oracle_only() {
+                    for (cs, enc) in &cases {
+                        id = w.push(coq_case(cs, enc)) as i64;
+                        if res.case_index.len() < 3000 {
+                            res.case_index.insert(id.to_string(), json!({"run": spec_json(s), "compared": spec_json(cs)}));
+                        }
+                    }
                 }
                 for (what, class) in o.fails {
                     res.bump(&format!("violation={class}"));
@@ -786,16 +1156,36 @@ fn main() {
                 if nontrivial(s) {
                     distinct.add(&format!("{:?}", s));
                 }
+                if let Spec::Task { .. } = s {
+                    if let Some((Spec::Lifecycle { codes }, _)) = cases.first() {
+                        res.bump(&format!("task_end={}", codes.last().copied().unwrap_or(0)));
+                        if codes.contains(&2) {
+                            res.bump("task_cancel_taken");
+                        }
+                    }
+                }
             }
         }
         if res.samples.len() < 3 && nontrivial(s) && i >= 10 {
             res.samples.push(spec_json(s));
         }
     }
+    drop(world);
     w.flush();
     res.distinct_nontrivial = distinct.count();
     res.case_files = w.files.iter().map(|p| p.display().to_string()).collect();
     res.write(&a.out);
-    let _ = Duration::from_millis(0);
     println!("c17: {} cases, {} distinct non-trivial, {} oracle violations, {} panics", res.evaluations, res.distinct_nontrivial, res.oracle_violations.len(), res.impl_panics);
+}
+
+/// a real task's kind sequence becomes a lifecycle case for the model's recogniser: the expected
+/// observation says "accepted as a complete word" (or the single failed frame of a pre-spawn failure)
+fn res_codes_case(o: Obs, codes: Vec<u64>, variant: u64) -> (Obs, Vec<(Spec, Vec<u64>)>) {
+    if codes.is_empty() {
+        return (o, vec![]);
+    }
+    let spawnless = variant == 1 || variant == 2;
+    let mut enc = if spawnless { vec![0, 0, 1] } else { vec![1, 1, 0] };
+    enc.extend(codes.iter().copied());
+    (o, vec![(Spec::Lifecycle { codes }, enc)])
 }
